@@ -2,6 +2,7 @@ package checks
 
 import (
 	"context"
+	"crypto"
 	"errors"
 	"fmt"
 	"io"
@@ -603,6 +604,103 @@ func runC20(c *Ctx) {
 
 	}
 	rec.Exhaustive = true
+	// ---------- built-in signers over an opaque crypto.Signer (HSM / KMS shim) that misbehaves ----------
+	{
+		kr := c.Keys
+		behaviours := []struct {
+			name string
+			out  []byte
+			err  error
+		}{
+			{"empty-nil", nil, nil}, {"empty-zero", []byte{}, nil}, {"error", nil, mon.ErrInjected}, {"error+bytes", mon.FixedSig, mon.ErrInjected},
+			{"error-temporary", nil, temporaryErr{}}, {"eof+bytes", mon.FixedSig[:7], io.EOF},
+		}
+		parent := &cose.Sign1Message{Headers: cose.Headers{Protected: cose.ProtectedHeader{int64(1): cose.AlgorithmES256}}, Payload: []byte("parent"), Signature: mon.FixedSig}
+		for _, k := range kr.Keys {
+			for _, bh := range behaviours {
+				op := &opaqueSigner{pub: k.Pub, out: bh.out, err: bh.err}
+				signer, nerr := cose.NewSigner(k.Alg, op)
+				if nerr != nil {
+					rec.Violate("opaque-signer", "NewSigner/"+k.Name, "NewSigner refused an opaque crypto.Signer with a matching public key: "+nerr.Error(), nil)
+					continue
+				}
+				hd := func() cose.Headers {
+					return cose.Headers{Protected: cose.ProtectedHeader{int64(1): k.Alg}, Unprotected: cose.UnprotectedHeader{}}
+				}
+				type res struct {
+					err    error
+					bytes  []byte
+					stored []byte
+					emit   func() ([]byte, error)
+				}
+				entries := map[string]func() res{
+					"Sign1Message.Sign": func() res {
+						m := &cose.Sign1Message{Headers: hd(), Payload: []byte("p")}
+						e := m.Sign(gen.Entropy, nil, signer)
+						return res{err: e, stored: m.Signature, emit: m.MarshalCBOR}
+					},
+					"Sign1": func() res {
+						b, e := cose.Sign1(gen.Entropy, signer, hd(), []byte("p"), nil)
+						return res{err: e, bytes: b}
+					},
+					"SignMessage.Sign": func() res {
+						m := &cose.SignMessage{Headers: cose.Headers{Protected: cose.ProtectedHeader{}, Unprotected: cose.UnprotectedHeader{}}, Payload: []byte("p"), Signatures: []*cose.Signature{{Headers: hd()}}}
+						e := m.Sign(gen.Entropy, nil, signer)
+						return res{err: e, stored: m.Signatures[0].Signature, emit: m.MarshalCBOR}
+					},
+					"Countersignature.Sign": func() res {
+						cs := &cose.Countersignature{Headers: hd()}
+						e := cs.Sign(gen.Entropy, signer, parent, nil)
+						return res{err: e, stored: cs.Signature, emit: cs.MarshalCBOR}
+					},
+					"SignHashEnvelope": func() res {
+						b, e := cose.SignHashEnvelope(gen.Entropy, signer, hd(), cose.HashEnvelopePayload{HashAlgorithm: cose.AlgorithmSHA256, HashValue: make([]byte, 32)})
+						return res{err: e, bytes: b}
+					},
+				}
+				for name, run := range entries {
+					key := fmt.Sprintf("opaque-signer/%s/%s/%s", k.Name, bh.name, name)
+					in := map[string]any{"cell": key}
+					var r res
+					if guard(rec, name, in, func() { r = run() }) {
+						continue
+					}
+					rec.Eval(1)
+					rec.Event("opaque-signer-cases")
+					rec.Class(key)
+					if r.err == nil {
+						if bh.err != nil {
+							rec.Violate("error-lost", key, fmt.Sprintf("the opaque key returned (%d bytes, %v) and the signing call returned nil", len(bh.out), bh.err), in)
+							continue
+						}
+						// an empty signature without error: a method may return nil, but nothing with an empty (or
+						// made-up) signature may be returned by a helper or emitted by an encoder
+						if len(r.bytes) > 0 {
+							rec.Violate("empty-signature-emitted", key, "a Sign helper returned a message although the key produced an empty signature: "+hexs(r.bytes), in)
+						}
+						if len(r.stored) > 0 {
+							rec.Violate("empty-signature-emitted", key, fmt.Sprintf("the key produced an empty signature but %d signature bytes were stored", len(r.stored)), in)
+						}
+						if r.emit != nil {
+							if out, e := r.emit(); e == nil {
+								rec.Violate("empty-signature-emitted", key, "an object signed with an empty signature serialises: "+hexs(out), in)
+							}
+						}
+						continue
+					}
+					if len(r.bytes) > 0 || len(r.stored) > 0 {
+						rec.Violate("bytes-with-error", key, fmt.Sprintf("the signing call failed but left %d returned / %d stored signature bytes", len(r.bytes), len(r.stored)), in)
+					}
+					if r.emit != nil {
+						if out, e := r.emit(); e == nil {
+							rec.Violate("half-signed-serialised", key, "an object whose signing failed serialises: "+hexs(out), in)
+						}
+					}
+				}
+			}
+		}
+	}
+	rec.Require("opaque-signer-cases", 100)
 	rec.Require("entropy-fault-surfaced", 50)
 	rec.Require("entropy-reader-consulted", 100)
 	rec.RequireClasses(1000)
@@ -614,4 +712,17 @@ type wrapCrypto struct{ k cryptoSigner }
 func (w wrapCrypto) Public() cryptoPublicKey { return w.k.Public() }
 func (w wrapCrypto) Sign(r io.Reader, d []byte, o cryptoSignerOpts) ([]byte, error) {
 	return w.k.Sign(r, d, o)
+}
+
+// opaqueSigner is a crypto.Signer that is none of the standard library's key types (the shape of an
+// HSM or KMS shim) and answers with a fixed result.
+type opaqueSigner struct {
+	pub crypto.PublicKey
+	out []byte
+	err error
+}
+
+func (o *opaqueSigner) Public() crypto.PublicKey { return o.pub }
+func (o *opaqueSigner) Sign(io.Reader, []byte, crypto.SignerOpts) ([]byte, error) {
+	return o.out, o.err
 }
